@@ -135,6 +135,9 @@ pub enum SOp {
     /// observe everything observable about document `n`
     Observe { n: usize },
     ObserveAll,
+    /// from here on, peer registrations, policies, head comparisons and their reads go through a
+    /// `SyncHandle` (the store actor) instead of the store itself
+    ViaActor,
 }
 
 pub struct StoreWorld<'a> {
@@ -145,6 +148,8 @@ pub struct StoreWorld<'a> {
     pub lines: Vec<Line>,
     /// which property's specification lines to add
     pub focus: &'static str,
+    /// see `SOp::ViaActor`
+    pub via_actor: bool,
 }
 
 pub fn peer_id(p: u8) -> [u8; 32] {
@@ -171,6 +176,34 @@ impl<'a> StoreWorld<'a> {
             open: vec![false; RAW_BASE + RAW_NS.len()],
             lines: vec![Line::model("tnew 1", "ok")],
             focus,
+            via_actor: false,
+        })
+    }
+    /// run `f` with the store inside a store actor; the actor is shut down afterwards and hands the
+    /// store back
+    fn with_handle<R>(&mut self, f: impl FnOnce(&iroh_docs::actor::SyncHandle, &tokio::runtime::Runtime) -> R) -> anyhow::Result<R> {
+        let store = std::mem::replace(&mut self.rs.store, iroh_docs::store::Store::memory());
+        let handle = iroh_docs::actor::SyncHandle::spawn(store, None, "passthrough".into());
+        let r = f(&handle, &self.rt);
+        self.rs.store = self.rt.block_on(handle.shutdown())?;
+        Ok(r)
+    }
+    /// a document-level request through the store actor: the document is opened there (the actor
+    /// serves such requests for open documents only), the request made, the handle released.
+    /// `None` when the actor cannot open the document (it does not exist): the caller then asks the
+    /// store itself.
+    fn via_doc<R>(
+        &mut self,
+        nsid: NamespaceId,
+        f: impl FnOnce(&iroh_docs::actor::SyncHandle, &tokio::runtime::Runtime) -> R,
+    ) -> anyhow::Result<Option<R>> {
+        self.with_handle(|h, rt| {
+            if rt.block_on(h.open(nsid, Default::default())).is_err() {
+                return None;
+            }
+            let r = f(h, rt);
+            let _ = rt.block_on(h.close(nsid));
+            Some(r)
         })
     }
     fn nsid(&self, n: usize) -> NamespaceId {
@@ -228,19 +261,30 @@ impl<'a> StoreWorld<'a> {
             }
         }
         // peers
-        let peers = match store.get_sync_peers(&nsid)? {
-            None => "none".to_string(),
-            Some(it) => {
-                let v: Vec<String> = it.map(|p| hex(&p)).collect();
-                format!("peers {} {}", v.len(), v.join(";"))
-            }
+        let via = if self.via_actor && !self.open[n] { self.via_doc(nsid, |h, rt| rt.block_on(h.get_sync_peers(nsid)))? } else { None };
+        let peers = match via {
+            Some(got) => match got? {
+                None => "none".to_string(),
+                Some(v) => format!("peers {} {}", v.len(), v.iter().map(|p| hex(p)).collect::<Vec<_>>().join(";")),
+            },
+            None => match self.rs.store.get_sync_peers(&nsid)? {
+                None => "none".to_string(),
+                Some(it) => {
+                    let v: Vec<String> = it.map(|p| hex(&p)).collect();
+                    format!("peers {} {}", v.len(), v.join(";"))
+                }
+            },
         };
         self.lines.push(Line::model(format!("tpeers 1 {nsh}"), peers.clone()));
         if self.focus == "C17" || self.focus == "C16" {
             self.lines.push(Line::oracle(format!("speers 1 {nsh}"), peers));
         }
         // policy
-        let pol = store.get_download_policy(&nsid)?;
+        let via = if self.via_actor && !self.open[n] { self.via_doc(nsid, |h, rt| rt.block_on(h.get_download_policy(nsid)))? } else { None };
+        let pol = match via {
+            Some(p) => p?,
+            None => self.rs.store.get_download_policy(&nsid)?,
+        };
         self.lines.push(Line::model(format!("tgetpolicy 1 {nsh}"), policy_tok(&pol)));
         if self.focus == "C15" || self.focus == "C16" {
             // specification: the policy set last since the document was created, else the default
@@ -434,9 +478,21 @@ impl<'a> StoreWorld<'a> {
                     self.lines.push(Line::oracle(format!("tclean 1 {}", self.nshex(*n)), clean));
                 }
             }
+            SOp::ViaActor => self.via_actor = true,
             SOp::Peer { n, t, p } => {
                 set_clock(*t);
-                let res = self.rs.store.register_useful_peer(self.nsid(*n), peer_id(*p));
+                // via the actor its thread reads the system clock: registrations are then ordered by real
+                // time, which increases like the generated times do (no case mixes the two clocks)
+                let nsid = self.nsid(*n);
+                let pid = peer_id(*p);
+                let via = if self.via_actor && !self.open[*n] { self.via_doc(nsid, |h, rt| rt.block_on(h.register_useful_peer(nsid, pid)))? } else { None };
+                let res = match via {
+                    Some(r) => {
+                        std::thread::sleep(std::time::Duration::from_micros(50));
+                        r
+                    }
+                    None => self.rs.store.register_useful_peer(nsid, pid),
+                };
                 set_clock(NOW);
                 let imp = match res {
                     Ok(()) => "ok".to_string(),
@@ -449,7 +505,13 @@ impl<'a> StoreWorld<'a> {
                 ));
             }
             SOp::SetPolicy { n, pol } => {
-                let res = self.rs.store.set_download_policy(&self.nsid(*n), pol.real());
+                let nsid = self.nsid(*n);
+                let real = pol.real();
+                let via = if self.via_actor && !self.open[*n] { self.via_doc(nsid, |h, rt| rt.block_on(h.set_download_policy(nsid, real)))? } else { None };
+                let res = match via {
+                    Some(r) => r,
+                    None => self.rs.store.set_download_policy(&nsid, pol.real()),
+                };
                 let imp = match res {
                     Ok(()) => "ok".to_string(),
                     Err(e) if e.to_string().contains("document not created") => "err:no-document".to_string(),
@@ -467,7 +529,13 @@ impl<'a> StoreWorld<'a> {
                 for (a, ts) in h.iter() {
                     toks.push((hex(a.as_bytes()), *ts));
                 }
-                let res = self.rs.store.has_news_for_us(self.nsid(*n), &h)?;
+                let nsid = self.nsid(*n);
+                let hh = h.clone();
+                let via = if self.via_actor && !self.open[*n] { self.via_doc(nsid, |hd, rt| rt.block_on(hd.has_news_for_us(nsid, hh)))? } else { None };
+                let res = match via {
+                    Some(r) => r?,
+                    None => self.rs.store.has_news_for_us(nsid, &h)?,
+                };
                 let imp = format!("news {}", res.map(|x| x.get()).unwrap_or(0));
                 self.lines.push(Line::model(format!("thasnews 1 {} {}", self.nshex(*n), heads_tok(&toks)), imp.clone()));
                 if self.focus == "C13" {
